@@ -339,12 +339,13 @@ func firstPos(ps []tokenPos) tokenPos {
 }
 
 func checkC08(c *core.Ctx) {
-	c.Explainf("C08 (decided clauses). R1: ErrorReader.Read and ErrorWriter.Write store the underlying error into .Err on the err != nil path and return it. R2: nothing else in iohelp touches the underlying stream. R2c: the constructors store the caller's stream itself (no buffering layer that defers writes and their errors). R3: every return of every emitted EncodeBebop/DecodeBebop is the latch (w.Err / r.Err) or the err of a nested call; `return nil` only where no I/O was performed. R3d: on the syntax tree of every emitted DecodeBebop (understood by the signature reader or not), no `return nil` and no `return f(…)` with f not given the reader is reached with a stream read behind it whose outcome was not tested by `if r.Err != nil { … return }`. R4: every nested EncodeBebop / Make<T>(r) is followed at once by `if err != nil { return err }`. R5: no call on the underlying stream has its error assigned to _ (Drain). R6: the constructors return an existing wrapper unchanged, so nested records share the latch. R7: no emitted EncodeBebop/DecodeBebop assigns the error latch itself. R9: emitted EncodeBebop/DecodeBebop never call a method of, or hand to a function, the wrapper's underlying w.Writer / r.Reader. R8: after a failed read no stream reader decodes the bytes an earlier read left in the shared scratch (the function tests the error, or ErrorReader.Read clears its destination on every failing path): a stale length prefix read back as a count makes the decoder allocate and loop for elements that are not in the stream before it gets to report the error. NOT decided: 'does not hang' as such; that an error from one Write makes later Writes harmless is the io.Writer contract.")
+	c.Explainf("C08 (decided clauses). R1: ErrorReader.Read and ErrorWriter.Write store the underlying error into .Err on the err != nil path and return it. R1c: every store into .Err in iohelp stores a value that is not nil (a variable under a test that it is not nil, a package-level error value) — never a call's error result as it comes, never nil: the latch is never cleared. R2: nothing else in iohelp touches the underlying stream. R2c: the constructors store the caller's stream itself (no buffering layer that defers writes and their errors). R3: every return of every emitted EncodeBebop/DecodeBebop is the latch (w.Err / r.Err) or the err of a nested call; `return nil` only where no I/O was performed. R3d: on the syntax tree of every emitted DecodeBebop (understood by the signature reader or not), no `return nil` and no `return f(…)` with f not given the reader is reached with a stream read behind it whose outcome was not tested by `if r.Err != nil { … return }`. R4: every nested EncodeBebop / Make<T>(r) is followed at once by `if err != nil { return err }`. R5: no call on the underlying stream has its error assigned to _ (Drain). R6: the constructors return an existing wrapper unchanged, so nested records share the latch. R7: no emitted EncodeBebop/DecodeBebop assigns the error latch itself. R9: emitted EncodeBebop/DecodeBebop never call a method of, or hand to a function, the wrapper's underlying w.Writer / r.Reader. R8: after a failed read no stream reader decodes the bytes an earlier read left in the shared scratch (the function tests the error, or ErrorReader.Read clears its destination on every failing path): a stale length prefix read back as a count makes the decoder allocate and loop for elements that are not in the stream before it gets to report the error. NOT decided: 'does not hang' as such; that an error from one Write makes later Writes harmless is the io.Writer contract.")
 	gr := startGen(c)
 	if gr == nil {
 		return
 	}
 	iohelpLatchRules(c, gr.p, "R1", "R2", "R5", "R6")
+	iohelpLatchNeverCleared(c, gr.p, "R1c")
 	iohelpCtorDirect(c, gr.p, "R2c")
 	iohelpDrain(c, gr.p, "R5", true)
 	iohelpStaleReads(c, gr.p, "R8")
